@@ -45,13 +45,15 @@ fn rec_ops(m: &HashMap<String, String>) {
     let o = ops::Opts { kmax: geti(m, "kmax", 3), max_edges: geti(m, "max-edges", 120) as usize };
     let out = std::io::stdout();
     let mut out = std::io::BufWriter::new(out.lock());
-    for i in 0..count {
+    let skip = geti(m, "skip", 0) as u64;
+    for i in skip..count {
         let fam = fams[(i as usize) % fams.len()];
         let sd = seed.wrapping_mul(1_000_003).wrapping_add(i);
         let s = match kind {
             "single" => ops::sess_single(sid0 + i, fam, sd, &o),
             "five" => ops::sess_five(sid0 + i, fam, sd, &o),
-            "repr" => ops::sess_repr(sid0 + i, fam, sd, &o),
+            "repr" => ops::sess_repr(sid0 + i, fam, sd, &o, false),
+            "repr32" => ops::sess_repr(sid0 + i, fam, sd, &o, true),
             "xform" => ops::sess_xform(sid0 + i, fam, sd, &o),
             "far" => ops::sess_far(sid0 + i, fam, sd, &o),
             "f32" => ops::sess_f32(sid0 + i, fam, sd, &o),
@@ -63,6 +65,13 @@ fn rec_ops(m: &HashMap<String, String>) {
             _ => panic!("unknown kind {}", kind),
         };
         writeln!(out, "{}", s.finish()).unwrap();
+        if ops::HUNG.load(std::sync::atomic::Ordering::SeqCst) {
+            // a library call is still spinning on an abandoned thread: flush and stop; the
+            // orchestrator restarts after this session (exit code 3, resume with --skip)
+            out.flush().unwrap();
+            eprintln!("RESUME {}", i + 1);
+            std::process::exit(3);
+        }
     }
 }
 
@@ -105,6 +114,7 @@ fn main() {
         "rec-stages-tri" => stages::rec_stages_tri(geti(&m, "n", 2), geti(&m, "l", 840), geti(&m, "from", 0) as usize, geti(&m, "stride", 1) as usize,
             geti(&m, "matrix", 40) as usize, geti(&m, "rid0", 1) as u64),
         "stage-inputs" => stages::stage_inputs(gets(&m, "file", "")),
+        "float-pi" => stages::float_pi(geti(&m, "count", 1000) as u64, geti(&m, "seed", 1) as u64),
         "replay-sweep" => stages::replay_sweep(gets(&m, "file", "")),
         "replay-pi" => {
             let (fr, off, ax) = (geti(&m, "frame", 0) as i32, geti(&m, "offset", 0), m.contains_key("only-axis"));
